@@ -174,12 +174,14 @@ deriving Repr
 
 def Obj.fresh : Obj := ⟨false, ⟨⟨0, [], ([], [])⟩, 0, []⟩, Dyn.empty⟩
 
-/-- the loop of `compute`: `n` backend steps, each followed by `dynamics.add` -/
-def stepLoop (faulty : Oracle) (ops : List MicroOp) (time : Int → Rat) :
+/-- the loop of `compute`: `n` backend steps, each followed by `dynamics.add`.  `ops k` is the
+    micro-op list of the step taken at counter `k` (which control-flow path of the step is taken
+    depends on the counter: within / beyond the memory cut-off). -/
+def stepLoop (faulty : Oracle) (ops : Int → List MicroOp) (time : Int → Rat) :
     Nat → Obj → Obj × Bool
   | 0, o => (o, true)
   | n+1, o =>
-    let r := backendStep faulty ops o.b
+    let r := backendStep faulty (ops o.b.core.step) o.b
     if r.2 then
       stepLoop faulty ops time n
         { o with b := r.1, dyn := dynAdd o.dyn (time r.1.core.step) r.1.core.stored }
@@ -194,13 +196,26 @@ def startObj (time : Int → Rat) (initStep : Int) (o : Obj) : Obj :=
 /-- `Tempo.compute(end_time)` / `MeanFieldTempo.compute(end_time)`; the Boolean says whether
     the call returned normally (`false`: the user callable's exception propagated). -/
 def compute (numStep : Int → Rat → Int) (time : Int → Rat) (initStep : Int)
-    (ops : List MicroOp) (faulty : Oracle) (o : Obj) (e : Rat) : Obj × Bool :=
+    (ops : Int → List MicroOp) (faulty : Oracle) (o : Obj) (e : Rat) : Obj × Bool :=
   let o1 := startObj time initStep o
   stepLoop faulty ops time (numStep o1.b.core.step e).toNat o1
 
+/-- The micro-op list of the TEMPO backend step taken at counter `k`, with
+    `compute_system_step` spliced in: which of its control-flow branches runs depends on the
+    memory cut-off (`dkmax = none`: no cut-off) and on the step number passed to it. -/
+def tempoOpsAt (dkmax : Option Int) (k : Int) : List MicroOp :=
+  match dkmax with
+  | none => tempo_step_nocutoff
+  | some d => if css_within_cond (tempo_css_arg.eval k) d then tempo_step_within else tempo_step_beyond
+
+def mftOpsAt (dkmax : Option Int) (k : Int) : List MicroOp :=
+  match dkmax with
+  | none => mft_step_nocutoff
+  | some d => if css_within_cond (mft_css_arg.eval k) d then mft_step_within else mft_step_beyond
+
 /-- a history of compute calls; a failed call is simply followed by the next one -/
 def runHist (numStep : Int → Rat → Int) (time : Int → Rat) (initStep : Int)
-    (ops : List MicroOp) (faulty : Oracle) (targets : List Rat) (o : Obj) : Obj :=
+    (ops : Int → List MicroOp) (faulty : Oracle) (targets : List Rat) (o : Obj) : Obj :=
   targets.foldl (fun o e => (compute numStep time initStep ops faulty o e).1) o
 
 /-- what `get_dynamics()` shows plus the persistent backend state, without the book-keeping -/
